@@ -13,13 +13,12 @@ namespace OPM.RunState
 
 theorem cancelU_base (o : OState) (u : UReq) : (cancelU o u).base = o.base := by
   unfold cancelU
+  simp only []
   split
-  · rfl
+  · split <;> rfl
   · split
     · rfl
-    · split
-      · unfold noteCancelled; split <;> rfl
-      · rfl
+    · split <;> rfl
 
 theorem foldl_cancelU_base (us : List UReq) (o : OState) : (us.foldl cancelU o).base = o.base := by
   induction us generalizing o with
